@@ -58,6 +58,7 @@ LEAN_MODULES = [
     "GridVerif.Props.C01.Ctor",
     "GridVerif.Props.C01.CtorSeries",
     "GridVerif.Props.C01.Init",
+    "GridVerif.Props.C01.Clauses",
 ]
 _T = {
     "NewtonCotes": ["trapezoid_exact", "midpoint_exact", "simpson_exact"],
@@ -94,6 +95,8 @@ _T = {
                                                  "clenshawcurtis", "fejerfirst", "fejersecond", "simpson", "tanhsinh", "expsinh",
                                                  "logexpsinh", "expexp", "singletanh", "singleexp", "singlearcsinhexp")]
             + ["trefethencc_ctor_eq_make", "trefethenstripcc_ctor_eq_make", "trefethengc2_ctor_eq_make", "trefethenstripgc2_ctor_eq_make"],
+    # round 6: clauses of the property over the regenerated constructors (stored changes C01-e, C01-h)
+    "Clauses": ["gausslaguerre_gen_exact", "init_ok_eq", "trefethenstripgeneral_gen_clause", "trefethengeneral_gen_clause"],
 }
 THEOREMS = [f"GridVerif.C01.{t}" for ts in _T.values() for t in ts]
 RULE = (
